@@ -91,6 +91,16 @@ func replayBehMain(args []string) {
 			case "Neg", "Abs", "Canonical":
 				e = Ev{"op": op}
 				e.setDec("x", reg("a", s))
+			case "QuoRem":
+				e = Ev{"op": "QuoRem", "wm": true, "m": int(s["m"].(float64))}
+				e.setDec("x", reg("a", s))
+				e.setDec("y", reg("b", s))
+			case "Text":
+				e = Ev{"op": "String"}
+				e.setDec("x", reg("a", s))
+			case "Ldexp":
+				e = Ev{"op": "Ldexp", "exp": int(s["k"].(float64))}
+				e.setDec("x", reg("a", s))
 			case "Round":
 				e = Ev{"op": "Round", "wm": true, "m": int(s["m"].(float64)), "dp": int(s["dp"].(float64))}
 				e.setDec("x", reg("a", s))
@@ -101,7 +111,18 @@ func replayBehMain(args []string) {
 			e["beh"] = nb
 			e["step"] = si + 1
 			exec(e)
-			if op != "SetMode" {
+			switch op {
+			case "SetMode":
+			case "Text": // the register receives Parse(String(x)), which the String event records as bp
+				r := e.dec("bp")
+				regs[int(s["d"].(float64))] = r
+				e["bok"] = matchesExpected(r, s["exp"].(map[string]any))
+			case "QuoRem":
+				q, r2 := e.dec("r"), e.dec("r2")
+				regs[int(s["d"].(float64))] = q
+				regs[int(s["d2"].(float64))] = r2
+				e["bok"] = matchesExpected(q, s["exp"].(map[string]any)) && matchesExpected(r2, s["exp2"].(map[string]any))
+			default:
 				r := e.dec("r")
 				regs[int(s["d"].(float64))] = r
 				e["bok"] = matchesExpected(r, s["exp"].(map[string]any))
